@@ -936,7 +936,7 @@ func checkOneFrame(w *World, r *Report, pfx string) {
 						if !ok {
 							continue
 						}
-						direct := c.Call.StaticCallee() == rc
+						direct := c.Call.StaticCallee() != nil && boundTarget(c.Call.StaticCallee()) == rc
 						if !direct && c.Call.StaticCallee() == nil && !c.Call.IsInvoke() {
 							if mc, ok := p.stripR(p.val(ev, c.Call.Value)).V.(*ssa.MakeClosure); ok && boundTarget(mc.Fn.(*ssa.Function)) == rc {
 								direct = true
